@@ -227,12 +227,12 @@ pub fn run_campaign(prop: &dyn Prop, tier: Tier, seed: u64, workers: usize) -> C
                 // On a tree where runs hang, a campaign that does not own termination (everything
                 // but C04) gives up early instead of burning a watchdog budget per run; what it
                 // skipped is reported in the evidence (`aborted_items`). Never happens on a healthy tree.
-                // (C04 itself stops expanding once 300 runs were judged stuck - each of them is
+                // (C04 itself stops expanding once 50 runs were judged stuck - each of them is
                 // already a reported violation, and a stuck run costs 9 watchdog budgets - or once
-                // 1000 runs needed the 8x budget to finish: a healthy tree has 0 or 1 of those)
+                // 200 runs needed the 8x budget to finish: a healthy tree has 0 or 1 of those)
                 if (prop.id() != "C04" && crate::run::HANGS.load(Ordering::Relaxed) > 200)
-                    || crate::run::STUCK.load(Ordering::Relaxed) > 300
-                    || crate::run::RETRIED.load(Ordering::Relaxed) > 1000
+                    || crate::run::STUCK.load(Ordering::Relaxed) > 50
+                    || crate::run::RETRIED.load(Ordering::Relaxed) > 200
                 {
                     let mut cov = Cov::default();
                     cov.bump("aborted_items_after_200_hung_runs");
